@@ -114,7 +114,57 @@ def run_c02(tier):
                           'triples permuted; non-trivial = more than one triple', exhaustive=True)
 
 
-RUN = {'C01': run_c01, 'C02': run_c02}
+# ---------------------------------------------------------------- C03
+BATCH_CLASSES = {'ok', 'bad', 'dp', 'dm', 'malformed', 'short', 'nong1', 'idsig', 'idkey'}
+
+
+def run_c03(tier):
+    ck = vlib.Check('C03', tier, 'model_checking')
+    seed = vlib.seed()
+    maxn, classes = (5, BATCH_CLASSES) if tier == 'quick' else (7, {'ok', 'bad', 'dp', 'dm', 'malformed', 'idkey'})
+    c = {'MaxN': maxn, 'Classes': classes, 'Coeffs': 'random', 'Split': 'len/2'}
+    res = vlib.tlc(SPEC, 'BLSBatch', vlib.cfg(c, invariants=['AgreesWithVerify', 'NoneUndefined', 'Emit']), name='batch', timeout=3000)
+    if not res.ok:
+        raise vlib.Undecided('BLSBatch: %s %s' % (res.violated, res.error))
+    ck.add_states(res, 'batch verification: every assignment of %d entry classes to n <= %d positions' % (len(classes), maxn))
+    if tier == 'thorough':
+        r2 = vlib.tlc(SPEC, 'BLSBatch', vlib.cfg(dict(c, MaxN=5, Classes=BATCH_CLASSES), invariants=['AgreesWithVerify', 'NoneUndefined']), name='batch2', timeout=3000)
+        if not r2.ok:
+            raise vlib.Undecided('BLSBatch (all classes): %s %s' % (r2.violated, r2.error))
+        ck.add_states(r2, 'all 9 classes, n <= 5')
+    neg = 0
+    for k, v in [('Coeffs', 'constant'), ('Split', 'wrong')]:
+        r = vlib.tlc(SPEC, 'BLSBatch', vlib.cfg(dict(c, MaxN=4, Classes=BATCH_CLASSES, **{k: v}), invariants=['AgreesWithVerify', 'NoneUndefined']), name='batchneg')
+        if not r.violated:
+            raise vlib.Undecided('negative control %s=%s not detected' % (k, v))
+        neg += 1
+    ck.cov['negative_controls'] = neg
+    cases = tlc_cases(res.out)
+    # quick: every case with at least one non-ok entry up to n = 4, a seeded third of n = 5; thorough: everything
+    jobs = []
+    for i, cs in enumerate(cases):
+        if tier == 'quick' and len(cs['inp']) == 5 and (i + seed) % 6 != 0:
+            continue
+        if tier == 'thorough' and len(cs['inp']) == 7 and (i + seed) % 4 != 0:
+            continue
+        jobs.append({'kind': 'batch', 'seed': seed * 1000003 + i, 'case': cs})
+    for k in range(1 if tier == 'quick' else 8):
+        jobs.append({'kind': 'batch-extra', 'seed': seed * 41 + k, 'case': {}})
+    execute(ck, 'C03', jobs)
+    for j in jobs:
+        if j['kind'] == 'batch':
+            ck.case(vlib.digest(j['case']['inp']), any(x != 'ok' for x in j['case']['inp']))
+    ck.cov['traces_validated_against_impl'] = len(jobs)
+    ck.sample(jobs[len(jobs) // 3]['case'])
+    ck.sample(jobs[-3]['case'])
+    ck.assumptions = ['internal randomness of the batch is sampled (each batch run 2x); a false alarm needs a 2^-128 coincidence',
+                      'the model treats independent random coefficients as formal indeterminates',
+                      'H(m) from the library under sk = 1; all other points by harness/ref']
+    return ck.finish(rule='cases = assignments of entry classes to positions, enumerated by TLC; non-trivial = at least one entry that is not '
+                          'the valid signature', exhaustive=(tier == 'thorough'))
+
+
+RUN = {'C01': run_c01, 'C02': run_c02, 'C03': run_c03}
 
 
 def run(prop, tier):
